@@ -1314,6 +1314,31 @@ func c01MakeEdits(b *c01Base) {
 		s.members = append([]c01Member{b.sibling.member.clone()}, s.members...)
 	})
 	add("list: emptied", "list emptied", false, func(s *c01State) { s.members = []c01Member{} })
+	// every arrangement of the genuine member G with a label-only member J and/or a copy M of G whose
+	// date/expires were moved to surround every instant of the time alphabet (its signature no longer
+	// matches): a verifier that pairs one member's window with another member's signature accepts G
+	// outside its own window
+	for _, arr := range []string{"MG", "GM", "JMG", "JGM", "MJG", "MGJ", "GJM", "GMJ"} {
+		arr := arr
+		add("list: arrangement "+arr+" (J label-only, M window-moved copy, G genuine)", "list arrangement with a window-moved copy", arr == "JMG", func(s *c01State) {
+			g := m0(s).clone()
+			mv := g.clone()
+			mv.set("date", strconv.FormatInt(b.date-3600, 10))
+			mv.set("expires", strconv.FormatInt(b.expires+3600, 10))
+			var out []c01Member
+			for _, ch := range arr {
+				switch ch {
+				case 'G':
+					out = append(out, g.clone())
+				case 'M':
+					out = append(out, mv.clone())
+				default:
+					out = append(out, c01Member{label: "junk"})
+				}
+			}
+			s.members = out
+		})
+	}
 	// --- formatting
 	add("format: leading and trailing whitespace", "whitespace", true, func(s *c01State) { s.lead, s.trail = " \t", "  " })
 	add("format: '; ' between parameters", "whitespace", false, func(s *c01State) { s.paramSep = " ; " })
